@@ -271,6 +271,9 @@ func (x *TExec) opConnect(st *TStep) { //nolint:cyclop
 
 func (x *TExec) opPeerConnect(st *TStep) {
 	c := x.client(st.C)
+	if c.hijacked != nil {
+		return // a ConnectionAttempt indication would be written into what is now a data stream
+	}
 	pi := st.P % len(TCPPeers)
 	p := TCPPeers[pi]
 	var target *net.TCPAddr
@@ -392,12 +395,26 @@ func (x *TExec) opConnectionBind(st *TStep) { //nolint:cyclop
 	if tc != nil {
 		id = tc.id
 	}
-	x.w.dport++
-	dc, err := x.w.net.DialTCPFrom(&net.TCPAddr{IP: c.addr.IP, Port: x.w.dport}, &net.TCPAddr{IP: ServerIP4, Port: ServerPort})
-	if err != nil {
-		return
+	onCtrl := st.Side == "ctrl" && tc != nil && !tc.gone && !tc.boundEver && c == owner && !c.closed && c.alloc != nil && !st.Tie && st.U == 0 &&
+		time.Now().Before(tc.deadline) && !tc.peerEnd.IsClosed()
+	var dc *sim.Conn
+	var err error
+	if onCtrl {
+		// the request goes out on the control connection itself: this server accepts that, and the
+		// control connection turns into the data connection (no further requests can be made on it)
+		dc = c.ctrl
+		x.St.inc("tcp:bind-on-the-control-connection")
+	} else {
+		x.w.dport++
+		dc, err = x.w.net.DialTCPFrom(&net.TCPAddr{IP: c.addr.IP, Port: x.w.dport}, &net.TCPAddr{IP: ServerIP4, Port: ServerPort})
+		if err != nil {
+			return
+		}
 	}
 	var rbuf []byte
+	if onCtrl {
+		rbuf = c.rbuf
+	}
 	m := &ref.Msg{Method: ref.MethodConnectionBind, Class: ref.ClassRequest, TxID: c.nextTx()}
 	m.Add(ref.AttrConnectionID, ref.U32(id))
 	ui := x.userIdx(c, st)
@@ -474,13 +491,18 @@ func (x *TExec) opConnectionBind(st *TStep) { //nolint:cyclop
 
 			return
 		}
-		_ = dc.Close()
+		if !onCtrl {
+			_ = dc.Close()
+		}
 		x.settle()
 
 		return
 	}
 	tc.bound, tc.boundEver, tc.dataEnd = true, true, dc
 	x.St.inc("tcp:bind-success")
+	if onCtrl {
+		c.closed, c.hijacked = true, tc
+	}
 	if tc.peerEnd.IsClosed() {
 		// the peer hung up while the connection was pending: the pair ends at once
 		tc.gone, tc.bound = true, false
